@@ -17,7 +17,7 @@ import PdfModel.Model.Lexer
   HexStringLexer::next_hex_byte               `nextHexByte`
   `for b in hex_string_lexer.iter() { .. }`   `collectHex`
 
-  `nested` is an `i64` (after the `fix:` commit; it was an `i32`, see `nextLexemeStepOld32` in `Lemmas/TotalStr`):
+  `nested` is an `i64` (after the `fix:` commit; it was an `i32`, see `nestedStepOld32` in `Lemmas/TotalStr`):
   `+= 1` beyond `i64::MAX` is an overflow panic (overflow checks on) — unreachable, the counter grows by at most
   one per byte read (`Lemmas/TotalStr.nextLexeme_spec`).
   `next_lexeme` is a `loop` (after the `fix:` commit; it called itself once per line continuation): `fuel`
